@@ -137,7 +137,7 @@ Definition new_interface (fl : flavour) (name : str) (node_id : option N) (paren
   end.
 
 (* Link(name, node_id, etype=NEW, interfaces, ltype, kwargs)    fim/user/link.py:66-93 and
-   add_network_link_sliver: the Link node first, then one edge per interface *)
+   add_network_link_sliver: interfaces looked up, then the Link node, then one edge per interface *)
 Definition new_link (fl : flavour) (name : str) (node_id : option N) (ltype : option N)
            (ifs : option (list iface_h)) (pure : option exn) : M N :=
   guard (negb (is_substrate fl && match node_id with None => true | Some _ => false end)) ETopology ;;;
@@ -150,6 +150,8 @@ Definition new_link (fl : flavour) (name : str) (node_id : option N) (ltype : op
     | Some l =>
       guard (name_ok rule_link name) EValue ;;;
       opt_raise pure ;;;
+      (* add_network_link_sliver (fix b5829c4): every interface is looked up before the Link node is added *)
+      for_each l (fun i => _ <- ask (fun g => find_node g (ih_id i)) ;; ret tt) ;;;
       m_add_node (mkNode id cLink name ty 0) ;;;
       for_each l (fun i => m_add_edge id rConnects (ih_id i)) ;;;
       ret id
@@ -158,8 +160,18 @@ Definition new_link (fl : flavour) (name : str) (node_id : option N) (ltype : op
 
 (* ---------------------------------------------------------------- NetworkService: connect / disconnect *)
 
+(* NetworkService.__service_guardrails *)
+Definition guardrails (nstype : N) (i : iface_h) : M unit :=
+  if nstype =? tL2PTP then
+    ity <- ask (fun g => node_type g (ih_id i)) ;;
+    guard (negb (ity =? tSharedPort)) ETopology
+  else ret tt.
+
 (* NetworkService.connect_interface   network_service.py:319-350 *)
 Definition connect_interface (fl : flavour) (ns : N) (i : iface_h) : M unit :=
+  (* fix 7b9c57b: the guardrails again, with the service type read back from the graph *)
+  nsty <- ask (fun g => node_type g ns) ;;
+  guardrails nsty i ;;;
   owner <- ask (fun g => iface_owner (owner_fuel g) g (ih_id i)) ;;
   match owner with
   | None => raise ETopology
@@ -244,25 +256,19 @@ Definition remove_ns_with_cps_and_links (ns : N) : M unit :=
   m_delete_node ns ;;;
   for_each ifs remove_cp_and_links.
 
-(* NetworkService.__service_guardrails *)
-Definition guardrails (nstype : N) (i : iface_h) : M unit :=
-  if nstype =? tL2PTP then
-    ity <- ask (fun g => node_type g (ih_id i)) ;;
-    guard (negb (ity =? tSharedPort)) ETopology
-  else ret tt.
+(* the interface loop of NetworkService.__init__ (network_service.py:100-119, fix 16ce105): per interface
+   try: guardrails; connect; remember   except Exception: disconnect the remembered ones, remove the service
+   (with any ServicePort a half-finished connect left on it), re-raise the same class of exception *)
+Definition rollback_service (ns : N) (done : list iface_h) (e : exn) : M unit :=
+  for_each done disconnect_interface ;;;
+  remove_ns_with_cps_and_links ns ;;;
+  raise e.
 
-(* the interface loop of NetworkService.__init__ (network_service.py:100-115): per interface
-   try: guardrails; connect; remember   except TopologyException: disconnect the remembered ones,
-   remove the service, re-raise TopologyException *)
 Fixpoint connect_all (fl : flavour) (ns nstype : N) (todo done : list iface_h) : M unit :=
   match todo with
   | [] => ret tt
   | i :: r =>
-      catch_topology
-        (guardrails nstype i ;;; connect_interface fl ns i)
-        (for_each done disconnect_interface ;;;
-         remove_ns_with_cps_and_links ns ;;;
-         raise ETopology) ;;;
+      catch_any (guardrails nstype i ;;; connect_interface fl ns i) (rollback_service ns done) ;;;
       connect_all fl ns nstype r (done ++ [i])
   end.
 
@@ -288,6 +294,24 @@ Definition new_service (fl : flavour) (name : str) (node_id : option N) (parent 
       connect_all fl id ty ifs [] ;;;
       ret id
   end.
+
+(* ABCPropertyGraph.remove_component_with_nss_cps_and_links / remove_network_node_with_components_nss_cps_and_links
+   abc_property_graph.py:1086-1136 *)
+Definition remove_component_with_nss (c : N) : M unit :=
+  k <- ask (fun g => node_cls g c) ;;
+  guard (k =? cComp) EQuery ;;;
+  nss <- ask (fun g => first_neighbor g c rHas cNS) ;;
+  m_delete_node c ;;;
+  for_each nss remove_ns_with_cps_and_links.
+
+Definition remove_network_node_with_all (n : N) : M unit :=
+  k <- ask (fun g => node_cls g n) ;;
+  guard (k =? cNN) EQuery ;;;
+  comps <- ask (fun g => first_neighbor g n rHas cComp) ;;
+  for_each comps remove_component_with_nss ;;;
+  nss <- ask (fun g => first_neighbor g n rHas cNS) ;;
+  m_delete_node n ;;;
+  for_each nss remove_ns_with_cps_and_links.
 
 (* ---------------------------------------------------------------- the calls *)
 
@@ -409,23 +433,32 @@ Fixpoint facility_ports (fl : flavour) (ns : N) (ports : list fac_port) (with_id
       facility_ports fl ns r with_id d_intk (Datatypes.S iindex)
   end.
 
-Definition op_add_facility (fl : flavour) (name : str) (node_id : option N) (d_ns d_int : N)
+Definition facility_tail (fl : flavour) (facn : N) (name : str) (with_id : bool) (d_ns d_int : N)
            (d_intk : list N) (nstype : N) (pure_ns : option exn)
-           (ports : option (list fac_port)) (pure_single : option exn) : M N :=
-  let with_id := match node_id with Some _ => true | None => false end in
-  facn <- op_add_node fl name node_id (Some tFacility) None ;;
+           (ports : option (list fac_port)) (pure_single : option exn) : M unit :=
   facs <- op_add_node_service fl facn (name ++ suffix_ns) (if with_id then Some d_ns else None)
                               (Some nstype) pure_ns ;;
   match ports with
   | None | Some [] =>
       _ <- add_interface_cached fl facs [] (name ++ suffix_int) (if with_id then Some d_int else None)
                                 (Some tFacilityPort) pure_single ;;
-      ret facn
-  | Some l => facility_ports fl facs l with_id d_intk 0 ;;; ret facn
+      ret tt
+  | Some l => facility_ports fl facs l with_id d_intk 0
   end.
 
+(* fix 2982a89: everything after add_node runs in a try; on any exception the facility node is removed with
+   its service and ports and the exception is re-raised *)
+Definition op_add_facility (fl : flavour) (name : str) (node_id : option N) (d_ns d_int : N)
+           (d_intk : list N) (nstype : N) (pure_ns : option exn)
+           (ports : option (list fac_port)) (pure_single : option exn) : M N :=
+  let with_id := match node_id with Some _ => true | None => false end in
+  facn <- op_add_node fl name node_id (Some tFacility) None ;;
+  catch_any (facility_tail fl facn name with_id d_ns d_int d_intk nstype pure_ns ports pure_single)
+            (fun e => remove_network_node_with_all facn ;;; raise e) ;;;
+  ret facn.
+
 (* Topology.add_switch   topology.py:305-336: node (type Switch), its service, then ports 'p1'..'p<nports>' with ids
-   node_id + '-int<i>' (i from 1); same structure as add_facility, no rollback either.  `d_intk` holds the
+   node_id + '-int<i>' (i from 1); same structure as add_facility.  `d_intk` holds the
    interned ids for i = 1, 2, ...; `pure_port` is the verdict of the port slivers (portlabels / portcapacities
    are the same objects for every port). *)
 Definition tSwitch : N := 10.
@@ -441,18 +474,27 @@ Fixpoint switch_ports (fl : flavour) (ns : N) (n : nat) (i : nat) (with_id : boo
       switch_ports fl ns n' (Datatypes.S i) with_id d_intk pure_port
   end.
 
-Definition op_add_switch (fl : flavour) (name : str) (node_id : option N) (d_ns : N) (d_intk : list N)
-           (nstype : N) (pure_ns : option exn) (nports : nat) (pure_port : option exn) : M N :=
-  let with_id := match node_id with Some _ => true | None => false end in
-  sw <- op_add_node fl name node_id (Some tSwitch) None ;;
+Definition switch_tail (fl : flavour) (sw : N) (name : str) (with_id : bool) (d_ns : N) (d_intk : list N)
+           (nstype : N) (pure_ns : option exn) (nports : nat) (pure_port : option exn) : M unit :=
   sws <- op_add_node_service fl sw (name ++ suffix_ns) (if with_id then Some d_ns else None)
                              (Some nstype) pure_ns ;;
-  switch_ports fl sws nports 1 with_id d_intk pure_port ;;;
+  switch_ports fl sws nports 1 with_id d_intk pure_port.
+
+(* `rollback`: does Topology.add_switch wrap the steps after add_node in try/except that removes the node
+   (proposed_fixes/C09-5.patch)?  The harness reads it off the source of the running library. *)
+Definition op_add_switch (rollback : bool) (fl : flavour) (name : str) (node_id : option N) (d_ns : N)
+           (d_intk : list N) (nstype : N) (pure_ns : option exn) (nports : nat) (pure_port : option exn) : M N :=
+  let with_id := match node_id with Some _ => true | None => false end in
+  sw <- op_add_node fl name node_id (Some tSwitch) None ;;
+  (if rollback
+   then catch_any (switch_tail fl sw name with_id d_ns d_intk nstype pure_ns nports pure_port)
+                  (fun e => remove_network_node_with_all sw ;;; raise e)
+   else switch_tail fl sw name with_id d_ns d_intk nstype pure_ns nports pure_port) ;;;
   ret sw.
 
 (* NetworkService.peer(ns, kwargs)   network_service.py:409-424: a ServicePort on each of the two services
    (named '<self>-<other>' and '<other>-<self>', each checked against the interface names its handle cached
-   when it was made, i.e. before the call) and an L2Path link between them - three steps, no rollback. *)
+   when it was made, i.e. before the call) and an L2Path link between them - three steps. *)
 Definition op_peer (fl : flavour) (a b : N) (pure : option exn) : M unit :=
   an <- ask (fun g => node_name g a) ;;
   bn <- ask (fun g => node_name g b) ;;
@@ -461,9 +503,14 @@ Definition op_peer (fl : flavour) (a b : N) (pure : option exn) : M unit :=
   let n1 := an ++ dash ++ bn in
   let n2 := bn ++ dash ++ an in
   i1 <- add_interface_cached fl a ca n1 None (Some tServicePort) pure ;;
-  i2 <- add_interface_cached fl b cb n2 None (Some tServicePort) None ;;
-  _ <- new_link fl (n1 ++ suffix_link) None (Some tL2Path) (Some [mkIface i1 n1; mkIface i2 n2]) None ;;
-  ret tt.
+  (* fix 1e03994: each later step in a try whose handler removes the port made by the step before *)
+  catch_any
+    (i2 <- add_interface_cached fl b cb n2 None (Some tServicePort) None ;;
+     catch_any
+       (_ <- new_link fl (n1 ++ suffix_link) None (Some tL2Path) (Some [mkIface i1 n1; mkIface i2 n2]) None ;;
+        ret tt)
+       (fun e => remove_cp_and_links i2 ;;; raise e))
+    (fun e => remove_cp_and_links i1 ;;; raise e).
 
 (* ---------------------------------------------------------------- one call of the history *)
 Inductive call :=
@@ -476,7 +523,7 @@ Inductive call :=
                 (cat : res comp_spec) (pure : option exn)
 | CAddFacility (name : str) (node_id : option N) (d_ns d_int : N) (d_intk : list N) (nstype : N)
                (pure_ns : option exn) (ports : option (list fac_port)) (pure_single : option exn)
-| CAddSwitch (name : str) (node_id : option N) (d_ns : N) (d_intk : list N) (nstype : N)
+| CAddSwitch (rollback : bool) (name : str) (node_id : option N) (d_ns : N) (d_intk : list N) (nstype : N)
              (pure_ns : option exn) (nports : nat) (pure_port : option exn)
 | CPeer (a b : N) (pure : option exn).
 
@@ -489,6 +536,6 @@ Definition run_call (fl : flavour) (c : call) : M unit :=
   | CAddLink n i t l p => _ <- op_add_link fl n i t l p ;; ret tt
   | CAddComponent pn n i a b c0 cat p => _ <- op_add_component fl pn n i a b c0 cat p ;; ret tt
   | CAddFacility n i a b k t p ports ps => _ <- op_add_facility fl n i a b k t p ports ps ;; ret tt
-  | CAddSwitch n i a k t p np pp => _ <- op_add_switch fl n i a k t p np pp ;; ret tt
+  | CAddSwitch rb n i a k t p np pp => _ <- op_add_switch rb fl n i a k t p np pp ;; ret tt
   | CPeer a b p => op_peer fl a b p
   end.
